@@ -49,9 +49,8 @@ def strategy_for(cfg, k):
 
 def strategy_style(cfg, name):
     st = cfg["strat"]
-    if name == "default":
-        return st["default"]
-    return st["per"][name]
+    style = st["default"] if name == "default" else st["per"][name]
+    return "ctx" if style == "ctx+opt" else style
 
 
 class BudgetRef:
@@ -96,7 +95,7 @@ class Att:
 def sanitise(answer_label, remaining):
     """The delay the statement of C05 requires for a strategy answer (label from the menu)."""
     if isinstance(answer_label, str):
-        v = {"nan": math.nan, "inf": math.inf, "-inf": -math.inf}[answer_label]
+        v = {"nan": math.nan, "inf": math.inf, "-inf": -math.inf}.get(answer_label, 0.0)
     else:
         v = answer_label * TAU
     if not math.isfinite(v) or v < 0:
